@@ -1183,18 +1183,32 @@ fn roughly_array(a: Option<&ArrayValidation>, b: Option<&ArrayValidation>) -> bo
         (None, None) => true,
         (None, Some(_)) => false,
         (Some(_), None) => false,
-        (Some(aa), Some(bb)) => match (&aa.items, &bb.items) {
-            (None, None) => true,
-            (None, Some(_)) => false,
-            (Some(_), None) => false,
-            (Some(SingleOrVec::Single(_)), Some(SingleOrVec::Vec(_))) => false,
-            (Some(SingleOrVec::Vec(_)), Some(SingleOrVec::Single(_))) => false,
+        (Some(aa), Some(bb)) => {
+            // Every keyword matters: a schema that only adds (say) a length
+            // bound is not equivalent to the one without it.
+            aa.max_items == bb.max_items
+                && aa.min_items == bb.min_items
+                && aa.unique_items.unwrap_or(false) == bb.unique_items.unwrap_or(false)
+                && roughly_schema_option(
+                    aa.additional_items.as_deref(),
+                    bb.additional_items.as_deref(),
+                )
+                && roughly_schema_option(aa.contains.as_deref(), bb.contains.as_deref())
+                && match (&aa.items, &bb.items) {
+                    (None, None) => true,
+                    (None, Some(_)) => false,
+                    (Some(_), None) => false,
+                    (Some(SingleOrVec::Single(_)), Some(SingleOrVec::Vec(_))) => false,
+                    (Some(SingleOrVec::Vec(_)), Some(SingleOrVec::Single(_))) => false,
 
-            (Some(SingleOrVec::Single(aaa)), Some(SingleOrVec::Single(bbb))) => aaa.roughly(bbb),
-            (Some(SingleOrVec::Vec(aaa)), Some(SingleOrVec::Vec(bbb))) => {
-                roughly_schema_array(Some(aaa), Some(bbb))
-            }
-        },
+                    (Some(SingleOrVec::Single(aaa)), Some(SingleOrVec::Single(bbb))) => {
+                        aaa.roughly(bbb)
+                    }
+                    (Some(SingleOrVec::Vec(aaa)), Some(SingleOrVec::Vec(bbb))) => {
+                        roughly_schema_array(Some(aaa), Some(bbb))
+                    }
+                }
+        }
     }
 }
 
